@@ -231,6 +231,9 @@ func (l *LookupEdgeAdjOut) Process(ctx context.Context, man gdbi.Manager, in gdb
 		for t := range in {
 			if t.IsSignal() {
 				queryChan <- gdbi.ElementLookup{Ref: t}
+			} else if t.IsNull() {
+				// no edge to follow
+				continue
 			} else {
 				queryChan <- gdbi.ElementLookup{
 					ID:  t.GetCurrent().To,
@@ -310,6 +313,9 @@ func (l *LookupEdgeAdjIn) Process(ctx context.Context, man gdbi.Manager, in gdbi
 		for t := range in {
 			if t.IsSignal() {
 				queryChan <- gdbi.ElementLookup{Ref: t}
+			} else if t.IsNull() {
+				// no edge to follow
+				continue
 			} else {
 				queryChan <- gdbi.ElementLookup{
 					ID:  t.GetCurrent().From,
@@ -424,6 +430,10 @@ func (f *Fields) Process(ctx context.Context, man gdbi.Manager, in gdbi.InPipe, 
 				out <- t
 				continue
 			}
+			if t.IsNull() {
+				out <- t
+				continue
+			}
 			o := jsonpath.SelectTravelerFields(t, f.keys...)
 			out <- o
 		}
@@ -489,6 +499,10 @@ func (r *Unwind) Process(ctx context.Context, man gdbi.Manager, in gdbi.InPipe, 
 		defer close(out)
 		for t := range in {
 			if t.IsSignal() {
+				out <- t
+				continue
+			}
+			if t.IsNull() {
 				out <- t
 				continue
 			}
@@ -561,7 +575,7 @@ func (h *HasLabel) Process(ctx context.Context, man gdbi.Manager, in gdbi.InPipe
 				out <- t
 				continue
 			}
-			if contains(labels, t.GetCurrent().Label) {
+			if !t.IsNull() && contains(labels, t.GetCurrent().Label) {
 				out <- t
 			}
 		}
